@@ -67,7 +67,8 @@ def check_pp(cfg):
     pp = r.pseudopressure.copy()
     fig, ax0 = plt.subplots()
     try:
-        ax = plotting.plot_pseudopressure(r, every=cfg["every"], rescale=cfg["rescale"], ax=ax0 if cfg["pass_ax"] else None)
+        xkw = {} if cfg.get("x_max") is None else {"x_max": cfg["x_max"]}   # x_max is the right-hand axis limit only: node positions do not depend on it
+        ax = plotting.plot_pseudopressure(r, every=cfg["every"], rescale=cfg["rescale"], ax=ax0 if cfg["pass_ax"] else None, **xkw)
         x = np.linspace(1.0 / cfg["nx"], 1.0, cfg["nx"])
         exp = []
         for i in range(pp.shape[0]):
@@ -228,6 +229,8 @@ def run(ctx):
             for every in sorted({1, 4, 5, 7, 10, 200, max(nt - 1, 1), nt}):
                 for rescale in (False, True):
                     emit("pp_curves", {**base, "every": every, "rescale": rescale, "pass_ax": (every + rescale) % 2 == 0})
+                    if every in (1, 7):
+                        emit("pp_curves", {**base, "every": every, "rescale": rescale, "pass_ax": bool(rescale), "x_max": 0.25 if every == 1 else 3.0})
             for ticks in (False, True):
                 for pass_ax in (True, False):
                     emit("rf_curve", {**base, "change_ticks": ticks, "pass_ax": pass_ax})
